@@ -8,6 +8,7 @@ import (
 	"go/build/constraint"
 	"go/parser"
 	"go/token"
+	"hash/fnv"
 	"io/fs"
 	"math/rand"
 	"os"
@@ -184,13 +185,31 @@ func GorootName(p string) (string, bool) {
 
 // c18Case: a file whose i-th declaration is `var _ = <Qual(paths[i], "V<i>")>`, so that
 // every rendered reference can be traced back to the path it was built with.
+//
+// Every case is rendered TWICE (tag rendered-twice): two File.Render operations, or - for
+// the quarter of the cases selected by a hash of (stream, setup, paths), tag
+// fragment-then-render - a Statement.RenderWithFile of a fragment `_ = f(<the same Quals>)`
+// first and File.Render after.  The second output has to satisfy the same oracle as the
+// first (imports still declared, qualifiers still bound), and a reference keeps its
+// qualifier from one output to the next.
 func c18Case(stream string, setup hist.History, paths []string, tags ...string) *Case {
 	h := hist.History{{Kind: "newfile", F: 0, A: "p"}}
 	h = append(h, setup...)
+	var quals []term.Node
 	for i, p := range paths {
 		h = append(h, hist.Op{Kind: "fadd", F: 0, Code: term.S(term.Named("Var"), term.Id("_"), term.Op("="), term.Qual(p, fmt.Sprintf("V%d", i)))})
+		quals = append(quals, term.S(term.Qual(p, fmt.Sprintf("V%d", i))))
 	}
-	h = append(h, hist.Op{Kind: "render", F: 0}, hist.Op{Kind: "imports", F: 0})
+	hs := fnv.New32a()
+	hs.Write([]byte(stream + " " + setup.Sexp() + " " + strings.Join(paths, " ")))
+	tags = append(tags, "rendered-twice")
+	if hs.Sum32()%4 == 0 && len(paths) > 0 && len(paths) <= 8 {
+		frag := term.S(term.Id("_"), term.Op("="), term.Id("f"), term.G("Call", quals...))
+		h = append(h, hist.Op{Kind: "rcode", F: 0, Code: frag}, hist.Op{Kind: "render", F: 0}, hist.Op{Kind: "imports", F: 0})
+		tags = append(tags, "fragment-then-render")
+	} else {
+		h = append(h, hist.Op{Kind: "render", F: 0}, hist.Op{Kind: "render", F: 0}, hist.Op{Kind: "imports", F: 0})
+	}
 	// what the user told about package names (only believed for paths outside GOROOT/src)
 	told := map[string]string{}
 	for _, op := range setup {
@@ -364,6 +383,8 @@ func (c18) Generate(r *rand.Rand, t string) []*Case {
 		}
 	}
 
+	out = append(out, c18RedundantAlias()...)
+
 	out = append(out, c18GennamesStub(r, t)...) // stream gennames-stub (c18_gennames.go)
 
 	if t != "thorough" {
@@ -443,6 +464,71 @@ func (c18) Generate(r *rand.Rand, t string) []*Case {
 	return out
 }
 
+// c18RedundantAlias: ImportAlias(stdpath, <the name its package clause declares>) - an alias
+// that says nothing new.  Stream redundant-alias (tag redundant-alias): every std package
+// alone, prefix off/on.  Stream redundant-alias-collision (tag redundant-alias+collision):
+// the same hint while ANOTHER path competes for that name - a user path whose last element
+// is the name (x.y/<name>: its guessed alias; also registered through ImportName /
+// ImportAlias(user, name)) for every std package, and every other std package of the same
+// collision group (math/rand, then crypto/rand with ImportAlias("crypto/rand", "rand")),
+// the competitor optionally carrying its own redundant alias - in both orders of first
+// use, prefix off/on.  Whatever qualifier ends up written has to be provided by the import
+// line: the plain real name needs no alias, anything else (rand1, pkg_rand, ...) needs the
+// explicit alias.
+func c18RedundantAlias() []*Case {
+	var out []*Case
+	red := func(sp StdPkg) hist.Op { return hist.Op{Kind: "importalias", F: 0, A: sp.Path, B: sp.Name} }
+	pkgs := StdPackages()
+	for _, prefix := range []bool{false, true} {
+		for _, sp := range pkgs {
+			out = append(out, c18Case("redundant-alias", append(withPrefix(prefix), red(sp)), []string{sp.Path}, "redundant-alias", "prefix="+onoff(prefix)))
+		}
+	}
+	const st = "redundant-alias-collision"
+	both := func(setup hist.History, a, b string, tags ...string) {
+		out = append(out, c18Case(st, setup, []string{a, b}, append([]string{"redundant-alias+collision", "order=competitor-first"}, tags...)...))
+		out = append(out, c18Case(st, setup, []string{b, a}, append([]string{"redundant-alias+collision", "order=std-first"}, tags...)...))
+	}
+	for _, sp := range pkgs {
+		u := "x.y/" + sp.Name
+		for _, prefix := range []bool{false, true} {
+			px := "prefix=" + onoff(prefix)
+			both(append(withPrefix(prefix), red(sp)), u, sp.Path, "competitor=user-guessed", px)
+			both(append(withPrefix(prefix), hist.Op{Kind: "importname", F: 0, A: u, B: sp.Name}, red(sp)), u, sp.Path, "competitor=user-importname", px)
+			both(append(withPrefix(prefix), red(sp), hist.Op{Kind: "importalias", F: 0, A: u, B: sp.Name}), u, sp.Path, "competitor=user-importalias", px)
+		}
+	}
+	byPath := map[string]StdPkg{}
+	for _, sp := range pkgs {
+		byPath[sp.Path] = sp
+	}
+	groups := collisionGroups()
+	var keys []string
+	for k := range groups {
+		keys = append(keys, k)
+	}
+	sort.Strings(keys)
+	for _, k := range keys {
+		for _, a := range groups[k] {
+			for _, b := range groups[k] {
+				if a == b {
+					continue
+				}
+				for _, prefix := range []bool{false, true} {
+					px := "prefix=" + onoff(prefix)
+					// a is used first and takes the name; b carries the redundant alias
+					out = append(out, c18Case(st, append(withPrefix(prefix), red(byPath[b])), []string{a, b}, "redundant-alias+collision", "competitor=std", "collide="+k, px))
+					// a is used first AND carries the redundant alias; b comes second without hint
+					out = append(out, c18Case(st, append(withPrefix(prefix), red(byPath[a])), []string{a, b}, "redundant-alias+collision", "competitor=std", "collide="+k, px))
+					// both carry one
+					out = append(out, c18Case(st, append(withPrefix(prefix), red(byPath[a]), red(byPath[b])), []string{a, b}, "redundant-alias+collision", "competitor=std+redundant-alias", "collide="+k, px))
+				}
+			}
+		}
+	}
+	return out
+}
+
 func (c18) Compare(c *Case, exp, got []hist.Obs) string {
 	if c.Stream == "gennames-stub" {
 		return c18StubCompare(c, exp, got) // c18_gennames.go
@@ -458,13 +544,6 @@ func (c18) Oracle(c *Case, got []hist.Obs) string {
 		return m
 	}
 	paths, _ := c.Meta["paths"].([]string)
-	o, ok := lastWrite(got)
-	if !ok {
-		return "the history produced no render observation"
-	}
-	if o.Kind != "write" || o.Failed {
-		return "the file was not rendered: " + o.String()
-	}
 	told, _ := c.Meta["told"].(map[string]string)
 	if strict, _ := c.Meta["strict"].(bool); strict {
 		// the table of `gennames -standard` speaks about GOROOT/src only: every entry must
@@ -476,7 +555,101 @@ func (c18) Oracle(c *Case, got []hist.Obs) string {
 		}
 		told = nil
 	}
-	return C18Check(paths, told, o.Out)
+	// every output of the history is judged on its own; a reference keeps its qualifier
+	oi, nout := 0, 0
+	var first map[int]string
+	firstOp := 0
+	for i, op := range c.Hist {
+		switch op.Kind {
+		case "imports", "save":
+			oi++
+			continue
+		case "render", "rcode":
+		default:
+			continue
+		}
+		if oi >= len(got) {
+			return fmt.Sprintf("operation %d (%s) has no observation", i, op.Kind)
+		}
+		o := got[oi]
+		oi++
+		nout++
+		if o.Kind != "write" || o.Failed {
+			return fmt.Sprintf("output %d (operation %d, %s) was not rendered: %s", nout, i, op.Kind, o.String())
+		}
+		src := o.Out
+		if op.Kind == "render" {
+			if m := C18Check(paths, told, src); m != "" {
+				if nout > 1 {
+					return fmt.Sprintf("output %d (operation %d, File.Render after %d earlier output(s)): %s", nout, i, nout-1, m)
+				}
+				return m
+			}
+		} else {
+			src = "package p\nfunc _() {\n" + o.Out + "\n}"
+		}
+		qs, m := c18Quals(paths, src)
+		if m != "" {
+			return fmt.Sprintf("output %d (operation %d, %s): %s", nout, i, op.Kind, m)
+		}
+		if first == nil {
+			first, firstOp = qs, i
+			continue
+		}
+		for k := range paths {
+			if first[k] != qs[k] {
+				return fmt.Sprintf("reference V%d to path %q is qualified by %s in the output of operation %d and by %s in the output of operation %d (%s)", k, paths[k], first[k], firstOp, qs[k], i, op.Kind)
+			}
+		}
+	}
+	if nout == 0 {
+		return "the history produced no render observation"
+	}
+	return ""
+}
+
+// c18Quals reads, from a file or a wrapped fragment, the qualifier of every reference V<i>
+// (each must occur exactly once, as <identifier>.V<i>).
+func c18Quals(paths []string, src string) (map[int]string, string) {
+	f, err := parser.ParseFile(token.NewFileSet(), "x.go", src, 0)
+	if err != nil {
+		return nil, "output does not parse: " + err.Error()
+	}
+	out := map[int]string{}
+	n := make([]int, len(paths))
+	inSel := map[*ast.Ident]bool{}
+	problem := ""
+	ast.Inspect(f, func(nd ast.Node) bool {
+		if se, ok := nd.(*ast.SelectorExpr); ok {
+			if i, ok := c18Ref(se.Sel.Name); ok && i < len(paths) {
+				inSel[se.Sel] = true
+				n[i]++
+				if x, ok := se.X.(*ast.Ident); ok {
+					out[i] = x.Name
+				} else if problem == "" {
+					problem = fmt.Sprintf("reference %s is not qualified by an identifier", se.Sel.Name)
+				}
+			}
+		}
+		return true
+	})
+	ast.Inspect(f, func(nd ast.Node) bool {
+		if id, ok := nd.(*ast.Ident); ok && !inSel[id] && problem == "" {
+			if i, ok := c18Ref(id.Name); ok && i < len(paths) {
+				problem = fmt.Sprintf("reference %s to path %q is written without a qualifier", id.Name, paths[i])
+			}
+		}
+		return true
+	})
+	if problem != "" {
+		return nil, problem
+	}
+	for i, k := range n {
+		if k != 1 {
+			return nil, fmt.Sprintf("reference V%d to path %q occurs %d times", i, paths[i], k)
+		}
+	}
+	return out, ""
 }
 
 func c18Ref(name string) (int, bool) {
